@@ -139,8 +139,10 @@ vox_read_block (SF_PRIVATE *psf, IMA_OKI_ADPCM *pvox, short *ptr, int len)
 
 		ima_oki_adpcm_decode_block (pvox) ;
 
-		memcpy (&(ptr [indx]), pvox->pcm, pvox->pcm_count * sizeof (short)) ;
-		indx += pvox->pcm_count ;
+		/* Two samples per code byte : for an odd request do not hand out more than was asked for. */
+		k = (pvox->pcm_count > len - indx) ? len - indx : pvox->pcm_count ;
+		memcpy (&(ptr [indx]), pvox->pcm, k * sizeof (short)) ;
+		indx += k ;
 		} ;
 
 	return indx ;
